@@ -29,3 +29,11 @@ def macros(run=None):
             except Exception: pass
     _cache['m'] = out
     return out
+
+
+IUPAC_LINE = r'K[LMNOP]\d|K[OP]|[LMNOP]\d[LMNOPQ]\d{1,2}'
+
+def iupac_lines(H):
+    """IUPAC line macro name (without _LINE) -> value, excluding the Siegbahn aliases (KA1, LL, ...)"""
+    import re
+    return {k[:-5]: v for k, v in H.items() if k.endswith('_LINE') and isinstance(v, int) and v < 0 and re.fullmatch(IUPAC_LINE, k[:-5])}
